@@ -266,6 +266,7 @@ func (x *Exec) invoke(fr *Frame, pc *preparedCall, st *State, k func(*State, []V
 	}
 	if m, ok := models[name]; ok {
 		x.Trusted["model of "+name] = true
+		x.callsiteRequires(fr, st, pc, name, pc.fn.Type().(*types.Signature))
 		m(x, fr, st, pc, k)
 		return
 	}
